@@ -40,7 +40,7 @@ def cases(tier):
             forms = [('hom', [2] * d), ('inhom', [2] * d)]
         for form, dims in forms:
             for inter in ('2d', 'r1', 'r2'):
-                for fam in ('real', 'complex', 'skew', 'defective'):
+                for fam in ('real', 'complex', 'skew', 'defective', 'diag'):
                     for r0 in (1, 2, 'max'):
                         for h in (0.1, 0.5):
                             for nz in (0, 2):
@@ -94,6 +94,13 @@ def gen_components(rng, dims, form, inter, fam, struct=None):
             S.append(-0.5 * np.eye(n) + np.diag(0.5 * np.ones(n - 1), -1))
             Li = np.stack([np.diag(np.ones(n - 1), -1) for _ in range(r)], axis=2)
             Mi = np.stack([np.diag(np.ones(n - 1), 1 if kk % 2 else -1) + (0.0 if kk % 2 else 0.0) for kk in range(r)], axis=0)
+            L.append(0.7 * Li); M.append(Mi); I.append(np.eye(n))
+            continue
+        if fam == 'diag':
+            # every component diagonal (classical ZZ-type couplings): the bond propagators are diagonal matrices that do NOT factorise
+            S.append(np.diag(rng.standard_normal(n)))
+            Li = np.stack([np.diag(rng.standard_normal(n)) for _ in range(r)], axis=2)
+            Mi = np.stack([np.diag(rng.standard_normal(n)) for _ in range(r)], axis=0)
             L.append(0.7 * Li); M.append(Mi); I.append(np.eye(n))
             continue
         if fam == 'skew':
